@@ -39,7 +39,7 @@ func (e Ev) MarshalJSON() ([]byte, error) {
 	return json.Marshal(struct{ ID int }{e.ID})
 }
 
-var hkinds = []string{"sync", "async", "once", "seq", "filtered", "panic", "async-panic", "async-seq"}
+var hkinds = []string{"sync", "async", "once", "seq", "filtered", "panic", "async-panic", "async-seq", "async-seq-ctx", "seq-ctx"}
 var pmodes = []string{"none", "ok", "fail", "unencodable", "timeout"}
 
 type workload struct {
@@ -51,6 +51,8 @@ type workload struct {
 	// before, between or after the publishes, and in particular after an asynchronous
 	// invocation was dispatched (or queued behind another one) and before it starts
 	CancelRace bool `json:"cancel_race,omitempty"`
+	// TwoPublishers: the two publishes are made by two tasks (concurrently)
+	TwoPublishers bool `json:"two_publishers,omitempty"`
 }
 
 func (w workload) String() string {
@@ -62,6 +64,9 @@ func (w workload) String() string {
 	cr := ""
 	if w.CancelRace {
 		cr = " cancelled-by-another-task"
+	}
+	if w.TwoPublishers {
+		cr += " two-publishers"
 	}
 	return fmt.Sprintf("[%s] precancelled=%v%s persist=%s observer=%s", strings.Join(hs, " "), w.Cancel, cr, pmodes[w.Persist], obs)
 }
@@ -124,9 +129,12 @@ func tokOf(ctx context.Context, kind string) int {
 	return t.id
 }
 
+type pubKey struct{}
+
 func (o recObs) OnPublishStart(ctx context.Context, et string, ev any) context.Context {
 	c, t, _ := o.newTok(ctx, "publish")
-	o.rec.Add("ps", t.id, 0, et)
+	id, _ := ctx.Value(pubKey{}).(int)
+	o.rec.Add("ps", t.id, id, et)
 	return c
 }
 func (o recObs) OnPublishComplete(ctx context.Context, et string) {
@@ -228,6 +236,20 @@ func (in *inst) Body() {
 			eventbus.Subscribe(bus, func(e Ev) { in.rec.Add("enter", i, e.ID, "p"); panic("boom") }, eventbus.Async())
 		case "async-seq":
 			eventbus.Subscribe(bus, func(e Ev) { in.rec.Add("enter", i, e.ID, ""); vrt.Point() }, eventbus.Async(), eventbus.Sequential())
+		case "async-seq-ctx":
+			// context-aware: the body notes which handler token its context carries, so the
+			// oracle can tell which publish that context descends from
+			eventbus.SubscribeContext(bus, func(ctx context.Context, e Ev) {
+				in.rec.Add("enter", i, e.ID, "")
+				in.rec.Add("hctx", tokOf(ctx, "handler"), e.ID, "")
+				vrt.Point()
+			}, eventbus.Async(), eventbus.Sequential())
+		case "seq-ctx":
+			eventbus.SubscribeContext(bus, func(ctx context.Context, e Ev) {
+				in.rec.Add("enter", i, e.ID, "")
+				in.rec.Add("hctx", tokOf(ctx, "handler"), e.ID, "")
+				vrt.Point()
+			}, eventbus.Sequential())
 		}
 	}
 	ctx, cancel := context.WithCancel(context.Background())
@@ -242,9 +264,18 @@ func (in *inst) Body() {
 		})
 	}
 	for _, id := range pubIDs {
-		in.rec.Add("call", id, 0, "")
-		eventbus.PublishContext(bus, ctx, Ev{ID: id, Bad: w.Persist == 3})
-		in.rec.Add("ret", id, 0, "")
+		id := id
+		pub := func() {
+			in.rec.Add("call", id, 0, "")
+			// each publish has a context of its own (a child of ctx) that says which one it is
+			eventbus.PublishContext(bus, context.WithValue(ctx, pubKey{}, id), Ev{ID: id, Bad: w.Persist == 3})
+			in.rec.Add("ret", id, 0, "")
+		}
+		if w.TwoPublishers {
+			vrt.Go(pub)
+		} else {
+			pub()
+		}
 	}
 	vrt.Join()
 	bus.Wait()
@@ -328,6 +359,27 @@ func (in *inst) Check(res *vrt.Result) []vrt.Violation {
 		for id, k := range started {
 			if completed[id] != 1 {
 				bad("balance", fmt.Sprintf("a %s start was completed %d times", k, completed[id]))
+			}
+		}
+		// a handler's context descends from the context of the publish that published its event
+		pubOfTok := map[int]int{} // publish token -> publish id
+		parentOf := map[int]int{} // handler token -> parent token
+		for _, e := range evs {
+			switch e.K {
+			case "ps":
+				pubOfTok[e.A] = e.B
+			case "hs":
+				parentOf[e.A] = e.B
+			}
+		}
+		for _, e := range evs {
+			if e.K != "hctx" {
+				continue
+			}
+			if e.A <= 0 {
+				bad("lineage", "a context-aware handler's context does not carry the token of its own handler start")
+			} else if pubOfTok[parentOf[e.A]] != e.B {
+				bad("lineage", "a handler's context descends from the context of another publish than the one that published its event")
 			}
 		}
 		herr, eerr := 0, 0
@@ -432,6 +484,13 @@ func workloads(thorough bool) []workload {
 		}
 	}
 	rec(nil)
+	// which publish a handler's context descends from; two concurrent publishers
+	for _, hs := range [][]int{{8}, {8, 0}, {9}, {9, 8}, {3}} {
+		for _, obs := range []int{0, 1} {
+			l = append(l, workload{H: hs, Observer: obs})
+			l = append(l, workload{H: hs, Observer: obs, TwoPublishers: true})
+		}
+	}
 	// cancellation racing the dispatch of asynchronous invocations
 	for _, hs := range [][]int{{1}, {7}, {1, 7}, {7, 0}, {6}, {7, 7}} {
 		for _, p := range []int{0, 1} {
@@ -460,11 +519,11 @@ func run(c *h.Check) {
 		}
 		maxE := 500
 		for _, k := range w.H {
-			if hkinds[k] == "async-seq" {
+			if strings.HasPrefix(hkinds[k], "async-seq") {
 				maxE = 50000
 			}
 		}
-		if w.CancelRace {
+		if w.CancelRace || w.TwoPublishers {
 			maxE = 50000
 		}
 		c.Explore(scenario(w), bound, maxE, false)
